@@ -177,7 +177,7 @@ using namespace verif;
 struct SetterCtx {
     Src& s;
     bool probe = true;  // true: only describe the k-th setter, call nothing, consume nothing
-    bool under_mpls = false, stp_below = false;
+    bool under_mpls = false, stp_below = false, has_inner = false;
     char kind = 0;
     bool applied = false;
     std::string cls, name, getter, value, threw;
@@ -188,8 +188,16 @@ struct SetterCtx {
 // value-domain adjustments: "in range" = what the field / the wire format can carry
 template <class VT> inline void adjust(SetterCtx&, VT&) {}
 inline void adjust(SetterCtx&, Tins::IP::Flags& v) { v = (Tins::IP::Flags)(v & 7); }  // 3-bit field
+inline void adjust(SetterCtx& sc, Tins::ICMPv6::Types& v) {
+    // Neighbour discovery (133..137, RFC 4861 4: options run to the end of the packet) and MLD (130, 143: RFC 3810 source /
+    // record lists) bodies extend to the end of the message: a separate payload below them is not representable
+    int t = (int)v;
+    if (sc.has_inner && ((t >= 133 && t <= 137) || t == 130 || t == 143)) v = (Tins::ICMPv6::Types)128;
+}
 inline void adjust(SetterCtx& sc, uint16_t& v) {
     if (sc.is("EthernetII", "payload_type") || sc.is("Dot1Q", "payload_type") || sc.is("SNAP", "eth_type") || sc.is("SLL", "protocol")) v = safe_ether(v);
+    // IEEE 802.1D BPDU timers are 16-bit fields in units of 1/256 s; the API takes and returns whole seconds, so the field carries 0..255 s
+    if (sc.cls == "STP" && (sc.name == "msg_age" || sc.name == "max_age" || sc.name == "hello_time" || sc.name == "fwd_delay")) v &= 0xff;
 }
 inline void adjust(SetterCtx& sc, uint8_t& v) {
     if (sc.is("IP", "protocol") || sc.is("IPv6", "next_header") || sc.is("IPSecAH", "next_header")) v = safe_proto(v);
@@ -1258,6 +1266,7 @@ struct Prog {
         const LM& m = model[i];
         if (m.oc == OC_PPPOE && layers[i]->inner_pdu()) return true;  // session packet: tags only exist in discovery packets
         if (!m.iext.empty()) return true;                             // ICMPv6: options (ND messages) and RFC 4884 extensions (time exceeded) exclude each other
+        if (m.oc == OC_ICMPV6 && layers[i]->inner_pdu()) return true;   // ND options run to the end of the packet: no payload can follow them
         return false;
     }
     void count_opt(const MOpt& o) {
@@ -1273,6 +1282,7 @@ struct Prog {
         c04s::SetterCtx sc(st);
         sc.under_mpls = i > 0 && model[i - 1].cls == "MPLS";
         sc.stp_below = i + 1 < model.size() && model[i + 1].cls == "STP";
+        sc.has_inner = p.inner_pdu() != nullptr;
         unsigned k = (unsigned)st.pick(n), tries = 0;
         for (; tries < n; ++tries, k = (k + 1) % n) {
             sc.probe = true;
@@ -1616,30 +1626,22 @@ void normalise(PacketView& pv) {  // an empty payload counts as no payload
         else break;
     }
 }
-bool all_zero_payload(const std::string& v, size_t from) { return v.size() >= 3 && v.find_first_not_of("0", from) == v.size() - 1; }
-// Ethernet minimum-frame padding (alignment padding): zeros after the packet re-parse as (part of) an unrecognised payload
-bool absorb_ethernet_padding(const PacketView& vp, PacketView& vq) {
-    bool eth60 = false;
-    for (const LayerView& l : vq) {
-        if (l.cls != "EthernetII" && l.cls != "Dot3") continue;
-        const FieldView* sz = l.find("size");
-        if (sz && sz->value == "60") eth60 = true;
-    }
-    if (!eth60 || vq.empty() || vq.back().cls != "RawPDU") return false;
+// Minimum-frame padding (EthernetII/Dot3 to 60 octets, Dot1Q with append_padding to 64: documented, alignment padding): `pad`
+// zero octets follow the packet, where pad is the sum of trailer_size() of those layers of p. Layers without a length field
+// hand them to the parser as (part of) an unrecognised payload: q may show EXACTLY pad extra zero octets at its end.
+bool absorb_frame_padding(const PacketView& vp, PacketView& vq, size_t pad) {
+    if (!pad || vq.empty() || vq.back().cls != "RawPDU") return false;
     FieldView* qf = nullptr;
     for (FieldView& f : vq.back().fields) if (f.name == "payload") qf = &f;
     if (!qf) return false;
+    const std::string zeros(2 * pad, '0');
     if (vq.size() == vp.size() + 1) {
-        if (all_zero_payload(qf->value, 2)) { vq.pop_back(); return true; }
+        if (qf->value == "x'" + zeros + "'") { vq.pop_back(); return true; }
         return false;
     }
     if (vq.size() == vp.size() && !vp.empty() && vp.back().cls == "RawPDU") {
         const FieldView* pf = vp.back().find("payload");
-        if (pf && qf->value.size() > pf->value.size() && qf->value.compare(0, pf->value.size() - 1, pf->value, 0, pf->value.size() - 1) == 0 &&
-            all_zero_payload(qf->value, pf->value.size() - 1)) {
-            qf->value = pf->value;
-            return true;
-        }
+        if (pf && qf->value == pf->value.substr(0, pf->value.size() - 1) + zeros + "'") { qf->value = pf->value; return true; }
     }
     return false;
 }
@@ -1697,6 +1699,11 @@ void reparse_and_compare(Prog& P, Ctx& ctx) {
     PacketView vp = view_packet(top);  // before serialising: serialisation writes derived fields back
     std::vector<uint32_t> hdr;         // header sizes, for the offsets of opaque payloads
     for (const PDU* l : P.layers) hdr.push_back(l->header_size());
+    size_t frame_pad = 0;              // minimum-frame padding p itself announces
+    for (size_t i = 0; i < P.layers.size(); ++i) {
+        const std::string& c = P.model[i].cls;
+        if (c == "EthernetII" || c == "Dot3" || c == "Dot1Q") frame_pad += P.layers[i]->trailer_size();
+    }
     PDU::serialization_type y;
     try {
         y = top.serialize();
@@ -1776,7 +1783,7 @@ void reparse_and_compare(Prog& P, Ctx& ctx) {
     }
     normalise(vp);
     normalise(vq);
-    if (absorb_ethernet_padding(vp, vq)) ctx.label("ethernet-padding-absorbed");
+    if (absorb_frame_padding(vp, vq, frame_pad)) ctx.label("frame-padding-absorbed");
     size_t n = std::min(vp.size(), vq.size());
     for (size_t i = 0; i < n; ++i) {
         if (vp[i].cls != vq[i].cls) {
@@ -1794,7 +1801,8 @@ void reparse_and_compare(Prog& P, Ctx& ctx) {
         const LayerView& b = vq[i];
         bool modelled = i < keep && i < P.model.size() && P.model[i].cls == a.cls;
         const LM* m = modelled ? &P.model[i] : nullptr;
-        bool raw_follows = i + 1 < vp.size() && vp[i + 1].cls == "RawPDU";
+        // the tag is the program's only when an unrecognised payload follows IN p (below an opaque layer p may hold a recognised one)
+        bool raw_follows = i + 1 < vp.size() && vp[i + 1].cls == "RawPDU" && i + 1 < P.model.size() && P.model[i + 1].cls == "RawPDU";
         std::vector<MOpt> wl;
         if (m) { wl = wire_list(*m); for (MOpt& o : wl) { o.data = o.wire; o.lenfield = o.wire.size(); } }
         std::string where = chain + " layer " + std::to_string(i) + " y=" + hex(y, 512) + " | " + prog;
